@@ -194,44 +194,53 @@ theorem lambdaSiblingsOk_eq_ok (paths : List (Option α × List (γ × (σ × Li
       simp only [firstErr_eq_ok, guardE_eq_ok, Bool.not_eq_true', ← Bool.not_eq_true, ahas_iff']
       exact fun g hg => h e he a ha g hg
 
-/-- Declarative well-formedness of a DPDA definition.  Determinism is only demanded of rows
-whose λ-entry has at least one stack symbol (otherwise there is no λ-move to conflict with;
-this is also exactly when the code looks). -/
+/-- When the λ-entry of a row is missing or empty there is nothing to conflict with. -/
+theorem rowDet_of_no_lambda (paths : List (Option α × List (γ × (σ × List γ))))
+    (h : ¬ ∃ e ∈ paths, e.1 = none ∧ e.2 ≠ []) : RowDet paths := by
+  have hl : lamRow paths = [] := by
+    unfold lamRow
+    cases hlk : alookup none paths with
+    | none => rfl
+    | some row =>
+      have hm := alookup_some_mem hlk
+      by_cases hr : row = []
+      · simp [hr]
+      · exact absurd ⟨(none, row), hm, rfl, hr⟩ h
+  intro e _ a _ g _
+  simp [hl, akeys]
+
+/-- Declarative well-formedness of a DPDA definition. -/
 structure WF (d : DPDA σ α γ) : Prop where
   symsOk : ∀ kv ∈ d.trans, ∀ e ∈ kv.2, ∀ a, e.1 = some a → a ∈ d.syms
   stackOk : ∀ kv ∈ d.trans, ∀ e ∈ kv.2, ∀ g ∈ akeys e.2, g ∈ d.stackSyms
-  det : ∀ kv ∈ d.trans, (∃ e ∈ kv.2, e.1 = none ∧ e.2 ≠ []) → RowDet kv.2
+  det : ∀ kv ∈ d.trans, RowDet kv.2
   tail : PdaTailWF d.states d.stackSyms d.init d.initStack d.finals d.mode
 
 theorem validateRow_eq_ok (d : DPDA σ α γ) (paths : List (Option α × List (γ × (σ × List γ)))) :
     d.validateRow paths = .ok () ↔
       (∀ e ∈ paths, ∀ a, e.1 = some a → a ∈ d.syms) ∧
       (∀ e ∈ paths, ∀ g ∈ akeys e.2, g ∈ d.stackSyms) ∧
-      ((∃ e ∈ paths, e.1 = none ∧ e.2 ≠ []) → RowDet paths) := by
+      RowDet paths := by
   unfold validateRow
   simp only [firstErr_eq_ok, Res.andThen_eq_ok, pdaInputSymOk_eq_ok, guardE_eq_ok, decide_eq_true_eq]
   constructor
   · intro h
     refine ⟨fun e he => (h e he).1, fun e he g hg => ((h e he).2 g hg).2, ?_⟩
-    rintro ⟨e, he, hnone, hne⟩
-    obtain ⟨⟨g, v⟩, t, hcons⟩ : ∃ x t, e.2 = x :: t := by
-      cases h2 : e.2 with
-      | nil => exact absurd h2 hne
-      | cons x t => exact ⟨x, t, rfl⟩
-    have := ((h e he).2 g (by simp [akeys, hcons])).1
-    rw [hnone] at this
-    exact (lambdaSiblingsOk_eq_ok paths).mp this
+    by_cases hex : ∃ e ∈ paths, e.1 = none ∧ e.2 ≠ []
+    · obtain ⟨e, he, hnone, hne⟩ := hex
+      obtain ⟨⟨g, v⟩, t, hcons⟩ : ∃ x t, e.2 = x :: t := by
+        cases h2 : e.2 with
+        | nil => exact absurd h2 hne
+        | cons x t => exact ⟨x, t, rfl⟩
+      have := ((h e he).2 g (by simp [akeys, hcons])).1
+      rw [hnone] at this
+      exact (lambdaSiblingsOk_eq_ok paths).mp this
+    · exact rowDet_of_no_lambda paths hex
   · rintro ⟨h1, h2, h3⟩ e he
     refine ⟨h1 e he, fun g hg => ⟨?_, h2 e he g hg⟩⟩
     cases hnone : e.1 with
     | some a => rfl
-    | none =>
-      apply (lambdaSiblingsOk_eq_ok paths).mpr
-      apply h3
-      refine ⟨e, he, hnone, ?_⟩
-      intro hnil
-      rw [hnil] at hg
-      simp [akeys] at hg
+    | none => exact (lambdaSiblingsOk_eq_ok paths).mpr h3
 
 theorem validate_eq_ok (d : DPDA σ α γ) : d.validate = .ok () ↔ d.WF := by
   unfold validate
